@@ -850,7 +850,7 @@ def si(x, unit: Literal['m','s']='s', k: int=1):
         '1.0 GHz'
     """
     if 1e12<= x:
-        return f'{x*1e-9:.{k}f} T{unit}' 
+        return f'{x*1e-12:.{k}f} T{unit}' 
     if 1e9<= x <1e12:
         return f'{x*1e-9:.{k}f} G{unit}' 
     if 1e6<= x <1e9:
